@@ -104,6 +104,14 @@ def histogram(line):
         keys.append("reconfigurations=%d" % len(re.findall(r"c\d+", f["hist"])))
     if "bg" in f:
         keys.append("custom-background")
+    if "src" in f or "seqs" in f:
+        keys.append("source=" + f.get("src", "create").split(":path")[0] + (":path" if f.get("src", "").endswith(":path") else ""))
+    elif f.get("rc") == "1":
+        keys.append("source=reverse_complement")
+    if f.get("copy") in ("1", "2") or re.search(r"(^|;)[kK](;|$)", f.get("hist", "")):
+        keys.append("source=copy")
+    if re.search(r"(^|;)s\d+", f.get("hist", "")):
+        keys.append("live-scanner")
     if f.get("cls") == "dist" and re.search(r"(^|[,/])-?\d{4,}", f.get("rows", "")):
         keys.append("dist:score-range>1000")
     return keys
@@ -165,7 +173,14 @@ C18_SPEC = dict(
          "lengths 0, 1, around multiples of 32 and up to 1300 (5000 thorough); 0..30 matrix rows). Observed per object: "
          "len(), obj[i] for every i in [-len-2, len+1] and around +-2^31, +-2^32, +-2^63, +-2^64, plus True/False and "
          "__index__ objects (value, exception class or PanicException), and of every memoryview its shape, strides, itemsize, format, ndim, nbytes, readonly, "
-         "tolist(), tobytes(), element access and mv.obj (the view owns its exporter); for StripedSequence additionally (cls=alloc) the buffer address "
+         "tolist(), tobytes(), element access and mv.obj (the view owns its exporter); of every object additionally "
+         "PyObject_GetBuffer through ctypes with 17 explicit flag combinations (SIMPLE, WRITABLE, FORMAT, ND, STRIDES, "
+         "*_CONTIGUOUS, INDIRECT, FULL, 3 random) and a NULL view: exception or len/itemsize/readonly/ndim/format/shape/"
+         "strides pointers, suboffsets, internal, obj, refcount while exported and after release, against model_request; "
+         "object sources: constructors, create() (list/tuple), load() of jaspar/jaspar16/transfac from a file object or "
+         "a path (Motif.counts/.pwm/.pssm, reference from the lmcore oracle), reverse_complement(), copy()/copy.copy(), "
+         "score_distribution; StripedSequence histories interleave calculate(), copies, new live Scanners and next() on "
+         "them between views; for StripedSequence additionally (cls=alloc) the buffer address "
          "before/after each calculate() while a view stays exported (never read), against the capacity model "
          "(view_dangling); compared with the logical contents computed from the constructor "
          "inputs by the extracted checker check_C18 (PROPFAIL) and with the extracted model of lib.rs (DIFF). "
@@ -179,9 +194,11 @@ C18_SPEC = dict(
         "python harness pyharness/py/c18_driver.py run by lmpy (pyharness/src, owned by C17): generator, and the reference "
         "contents computed from constructor inputs (symbol tables of abc.rs; f32 re-computation of to_freq/to_weight; exact "
         "dyadic scores; f64 re-computation of ScoreDistribution::from — as repaired by 4832e71/d6e308b/5ab0464 — in the code's order of operations)",
+        "pyharness/src/lmcore.rs (C17's core-library oracle) for the weights / log-odds of Motif objects built by create()/load(); "
+        "ctypes.pythonapi.PyObject_GetBuffer / PyBuffer_Release for raw buffer requests and buffer addresses",
         "CPython 3.11 memoryview (tolist/tobytes/element access follow shape/strides/format of the exported Py_buffer) and "
         "PyO3 0.22 argument extraction (isize extraction fails outside the ssize_t range; lib.rs maps that to IndexError), as modelled in PyIdxModel.v",
-        "translator translate/pyidx_slots.py (regex/brace-matching reader of lib.rs: slot table, __getbuffer__ constants, cached shape/strides arrays)",
+        "translator translate/pyidx_slots.py (regex/brace-matching reader of lib.rs: slot table, __getbuffer__ constants and guards, cached shape/strides arrays; of seq.rs / pli/mod.rs / dense.rs / dispatch.rs / platform/avx2.rs: DEFAULT_EXTRA_ROWS, row alignment, lanes)",
         "coq/dense (C19): row stride and ravel() layout of DenseMatrix; closed form of Stripe::stripe (C04) taken as the definition of the striped table",
         "modelled, not verified: lib.rs itself (hand-written Gallina model of __len__/__getitem__/__getbuffer__ and of the cached shape/strides); "
         "Vec growth (resize within capacity keeps the buffer, growth gives a fresh buffer) and the capacity reserved by stripe() per dispatch arm",
